@@ -196,7 +196,24 @@ defvjp(anp.dsplit, lambda ans, ary, idxs: lambda g: anp.concatenate(g, axis=2))
 defvjp(anp.ravel, lambda ans, x, order=None: lambda g: anp.reshape(g, anp.shape(x), order=order))
 defvjp(anp.expand_dims, lambda ans, x, axis: lambda g: anp.reshape(g, anp.shape(x)))
 defvjp(anp.squeeze, lambda ans, x, axis=None: lambda g: anp.reshape(g, anp.shape(x)))
-defvjp(anp.diag, lambda ans, x, k=0: lambda g: anp.diag(g, k))
+
+
+def grad_diag(ans, x, k=0):
+    if anp.ndim(x) != 2:
+        return lambda g: anp.diag(g, k)
+    rows, cols = anp.shape(x)
+
+    def vjp(g):
+        # anp.diag(g, k) is square; pad / crop it to the (possibly non-square) shape of x
+        d = anp.diag(g, k)
+        size = anp.shape(d)[0]
+        d = anp.pad(d, ((0, max(rows - size, 0)), (0, max(cols - size, 0))), mode="constant")
+        return d[:rows, :cols]
+
+    return vjp
+
+
+defvjp(anp.diag, grad_diag)
 defvjp(anp.flipud, lambda ans, x,: lambda g: anp.flipud(g))
 defvjp(anp.fliplr, lambda ans, x,: lambda g: anp.fliplr(g))
 defvjp(anp.rot90, lambda ans, x, k=1: lambda g: anp.rot90(g, -k))
